@@ -73,9 +73,17 @@ def counter_delta(stores, counter_key):
 
 
 def run(chk, F, tier):
+    # M1 / M2: decided by interpreting the wrapper methods (sa/rules_c14s.py); structurally when the interpreter refuses the code
+    import rules_c14s
+    if rules_c14s.run(chk, F, tier):
+        run_init(chk, F)
+        return
+    run_structural(chk, F, tier)
+
+
+def run_structural(chk, F, tier):
     chk.rule("M1.forward", floor=36, doc="each wrapper method makes exactly one call of the same operation on the inner stream with its own arguments and returns that result")
     chk.rule("M2.counter", floor=18, doc="on every Ok path the counter grows by exactly the operation's declared stream effect")
-    chk.rule("M3.init", floor=2, doc="counters start at 0 and are stored nowhere else")
     methods = []
     for b in F.bodies:
         if b["kind"] != "AssocFn":
@@ -195,7 +203,12 @@ def run(chk, F, tier):
             chk.expect("M2.counter", key, not cprobs,
                        "%s: %s" % (b["path"], "; ".join(sorted(set(cprobs)))),
                        detail={"method": b["path"], "declared_effect": str(EFFECT[name])}, sample={"method": key, "effect": str(EFFECT[name])})
+    run_init(chk, F)
+
+
+def run_init(chk, F):
     # M3: constructors zero the counter
+    chk.rule("M3.init", floor=2, doc="counters start at 0 and are stored nowhere else")
     for wk, (inner, counter) in WRAPPERS.items():
         if counter is None:
             continue
